@@ -76,8 +76,7 @@ WriteOtherC(c) ==
     /\ UNCHANGED <<docs, cmark, vlast, rows, dv, nver>>
 WriteOther == clock < MaxCas /\ WriteOtherC(clock + 1)
 
-Meta(k, c, kd) ==
-    /\ c # docs[k].cas
+MetaC(k, c, kd) ==
     /\ docs' = [docs EXCEPT ![k] = [cas |-> c, ver |-> nver + 1, kind |-> kd]]
     /\ nver' = nver + 1
     /\ IF c <= cmark
@@ -88,11 +87,14 @@ Meta(k, c, kd) ==
             /\ vlast' = vlast
     /\ UNCHANGED <<omark, rows, dv>>
 
-Purge ==
-    /\ \E k \in Keys : docs[k].kind = "tomb"
+Meta(k, c, kd) == c # docs[k].cas /\ MetaC(k, c, kd)
+
+PurgeC ==
     /\ docs' = [k \in Keys |-> IF docs[k].kind = "tomb" THEN NoDoc ELSE docs[k]]
     /\ rows' = {r \in rows : docs[r[1]].kind # "tomb"}
     /\ UNCHANGED <<clock, cmark, omark, vlast, dv, nver>>
+
+Purge == (\E k \in Keys : docs[k].kind = "tomb") /\ PurgeC
 
 Replace == /\ rows' = {} /\ vlast' = 0 /\ dv' = 1 - dv /\ UNCHANGED <<docs, clock, cmark, omark, nver>>
 
